@@ -321,6 +321,13 @@ impl Monitor for C20 {
             return;
         };
         col.publish("determinism", &inp.prog.shape);
+        // one of the two machines also sees host-side operations that must be invisible
+        for _ in 0..prng.below(3) {
+            if let Some(d) = perturb(&mut a, &mut prng, &Perturb { areas: false, hooks: true, clone: true }) {
+                col.violation_case("determinism:neutral-operation-visible", k, d, json!(null));
+                return;
+            }
+        }
         let (ra, da, xa, sa) = run(&mut a, &inp);
         let (rb, db, xb, _sb) = run(&mut b, &inp);
         col.eval(2);
